@@ -514,6 +514,79 @@ class Names(Part):
         return res
 
 
+class PathRelations(Part):
+    name = "names_of_input_and_output_paths"
+    desc = "input / output path pairs whose names are related (one a prefix of the other, siblings, nested differently, relative and absolute) through main and anonymize_files, directory and single file: the same outputs as for unrelated names"
+
+    PAIRS = [("configs", "configs_anon"), ("configs", "configs.anon"), ("in", "in2"), ("in2", "in"), ("a", "b/a"),
+             ("x/in", "x/out"), ("snapshot/configs", "snapshot-anon/configs"), ("c", "cc"), ("anon", "anon_undone")]
+    FPAIRS = [("r1.cfg", "r1.cfg.anon"), ("r1.cfg", "anon-r1.cfg"), ("d/r1.cfg", "d2/r1.cfg"), ("r1", "r1.cfg")]
+
+    def __init__(self, tier, seed):
+        self.tier, self.seed = tier, seed
+
+    def cases(self):
+        return [{"kind": "dir", "pair": list(p), "entry": e, "spell": sp} for p in self.PAIRS for e in ("main", "anonymize_files")
+                for sp in ("abs", "rel")] + \
+               [{"kind": "file", "pair": list(p), "entry": e, "spell": sp} for p in self.FPAIRS for e in ("main", "anonymize_files")
+                for sp in ("abs", "rel")]
+
+    def run(self, case):
+        from netconan.anonymize_files import FileAnonymizer, anonymize_files
+        from netconan.netconan import main
+
+        res = Res()
+        root = seams.scratch_dir("c16p")
+        cwd = os.getcwd()
+        try:
+            inp, outp = case["pair"]
+            tree = {"r1.cfg": CONTENT["a.cfg"], "sub/r2.cfg": CONTENT["sub/x.cfg"]}
+            if case["kind"] == "dir":
+                seams.write_tree(os.path.join(root, inp), tree)
+            else:
+                seams.write_tree(os.path.join(root, os.path.dirname(inp) or "."), {os.path.basename(inp): tree["r1.cfg"]})
+            os.chdir(root)
+            a, b = (inp, outp) if case["spell"] == "rel" else (os.path.join(root, inp), os.path.join(root, outp))
+            exc = None
+            with seams.capture_logs(40) as recs, seams.capture_stdio():
+                try:
+                    if case["entry"] == "main":
+                        main(["-a", "-p", "-s", "saltForTest", "--preserve-host-bits", "0", "-i", a, "-o", b])
+                    else:
+                        anonymize_files(a, b, anon_pwd=True, anon_ip=True, salt="saltForTest", preserve_suffix_v4=0, preserve_suffix_v6=0)
+                except BaseException as e:  # noqa
+                    exc = e
+            os.chdir(cwd)
+            res.evals += 1
+            res.nt(tuple(sorted((k, str(v)) for k, v in case.items())))
+            names = ["r1.cfg", "sub/r2.cfg"] if case["kind"] == "dir" else ["r1.cfg"]
+            with seams.capture_logs():
+                fa = FileAnonymizer(anon_pwd=True, anon_ip=True, salt="saltForTest", preserve_suffix_v4=0, preserve_suffix_v6=0)
+                want = {}
+                for n in names:
+                    buf = io.StringIO()
+                    fa.anonymize_io(io.StringIO(tree[n], newline=""), buf)
+                    want[n] = buf.getvalue().encode()
+            if case["kind"] == "dir":
+                got = seams.read_tree(os.path.join(root, outp)) if os.path.isdir(os.path.join(root, outp)) else {}
+                got = {k: v for k, v in got.items() if not k.endswith("/")}
+            else:
+                p = os.path.join(root, outp)
+                got = {"r1.cfg": open(p, "rb").read()} if os.path.isfile(p) else {}
+            res.out((exc is None, sorted(got) == sorted(want)))
+            if exc is not None:
+                res.violation("run-refused-or-aborted|%s|%s" % (case["kind"], case["entry"]),
+                              "-i %r -o %r (%s): %r" % (a if case["spell"] == "rel" else inp, outp, case["spell"], exc), case)
+            elif got != want:
+                res.violation("outputs-differ-for-related-path-names|%s|%s" % (case["kind"], case["entry"]),
+                              "-i %r -o %r (%s): outputs %r, expected %r" % (inp, outp, case["spell"], sorted(got), sorted(want)), case)
+            res.samples.append(case)
+        finally:
+            os.chdir(cwd)
+            shutil.rmtree(root, ignore_errors=True)
+        return res
+
+
 class SingleFile(Part):
     name = "single_file_input"
     desc = "single input file: named output file only; output occupied by a directory is reported"
@@ -676,4 +749,4 @@ def json_key(d):
 
 
 def parts(tier, seed):
-    return [TreesPart(tier, seed), EntryPoints(tier, seed), SingleFile(tier, seed), RepeatedRuns(tier, seed), OptionValues(tier, seed), Names(tier, seed)]
+    return [TreesPart(tier, seed), EntryPoints(tier, seed), SingleFile(tier, seed), RepeatedRuns(tier, seed), OptionValues(tier, seed), Names(tier, seed), PathRelations(tier, seed)]
